@@ -190,7 +190,8 @@ def Ty.ok : Ty → Bool
 
 /-- resolver rule: only optional fields or structs can be pointers -/
 def Field.ok (f : Field) : Bool :=
-  f.ty.ok && (!f.ty.isPtr || f.ty.isStructPtr || f.req == .optional) && (!f.nocopy || f.ty.tt == .string)
+  f.ty.ok && (!f.ty.isPtr || f.ty.isStructPtr || f.req == .optional) && (!f.nocopy || f.ty.tt == .string) &&
+  decide (f.id < 65536)
 def SDesc.ok (sd : SDesc) : Bool := sd.fields.all Field.ok
 def Schema.ok (S : Schema) : Bool := S.all SDesc.ok
 
